@@ -39,6 +39,14 @@ std::vector<uint8_t> contentOf(const FileDesc& f)
 	std::vector<uint8_t> v(f.size);
 	uint32_t s = seedOf(f);
 	for (uint32_t j = 0; j < f.size; ++j) v[j] = mc::contentByte(s, j);
+	// every other file begins like a piece of the container format (a tag, then a length word with the flag bit): a reader or
+	// writer that searches for tags instead of following the recorded offsets is misled by it
+	if (s % 2 == 0) {
+		static const char* tags[] = { "VBLK", "voli", "vols", "VOL ", "volh" };
+		const char* t = tags[(s / 2) % 5];
+		for (uint32_t j = 0; j < 4 && j < f.size; ++j) v[j] = uint8_t(t[j]);
+		if (f.size >= 8) { v[4] = 3; v[5] = 0; v[6] = 0; v[7] = 0x80; }
+	}
 	return v;
 }
 
